@@ -629,4 +629,80 @@ theorem parse_eq_denote_string (cfg : ParseCfg) (env : PyEnv) (cs : List CharInf
   rw [parseTerms_of_tokens cfg env cs ts0 ts h1 h2, ← parseToks_erase, h3]
   exact parse_eq_denote_tokens cfg env f hen hz
 
+/-! ### from ANY token list that is rewritten to something the shunting-yard reads as the formula -/
+
+/-- the token sequence of the formula as the parser reads it: `1 +` in front of every right-hand part -/
+def _root_.FormulaicVerif.Spec.Denote.Formula.rewritten (add : Bool) : Formula → List Tok
+  | .one p tail => partsToks (wo add p) (tail.map (wo add))
+  | .tilde p tail => opTok tildeSym :: partsToks (wo add p) (tail.map (wo add))
+  | .two l ltail p tail => partsToks l ltail ++ opTok tildeSym :: partsToks (wo add p) (tail.map (wo add))
+
+/-- if the rewriting of `ts` gives the shunting-yard the same tree as the rewritten tokens of `f`, then `ts`
+parses to the denotation of `f` (whatever `ts` looks like: sign runs, zeros, merged tokens) -/
+theorem parseToks_of_rewritten (cfg : ParseCfg) (env : PyEnv) (ts : List Tok) (f : Formula) (hen : f.Enabled cfg)
+    (h : tokensToAst cfg.table (interceptTokens cfg.includeIntercept ts).1
+      = tokensToAst cfg.table (f.rewritten cfg.includeIntercept)) :
+    parseToks cfg env ts = denoteFormula cfg f := by
+  cases f with
+  | one p tail =>
+    have hparse := multipart_parses_doc cfg.twosided cfg.multipart cfg.multistage
+      (wo cfg.includeIntercept p) (tail.map (wo cfg.includeIntercept)) (map_eq_nil_or _ _ _ hen)
+    rw [← table_doc] at hparse
+    have hparse' := h.trans hparse
+    rw [parseToks_of cfg env _ _ _ hparse' (fun dot => eval_side dot _ _),
+      wrapCheck_root _ (fun v hv => denSide_shape _ _ _ v hv)]
+    simp only [denoteFormula, denStruct]
+    rw [denSide_map, denSide_congr _ _ (denSum_wo cfg.includeIntercept)]
+  | tilde p tail =>
+    have hparse := onesided_tilde_parses_doc cfg.twosided cfg.multipart cfg.multistage
+      (wo cfg.includeIntercept p) (tail.map (wo cfg.includeIntercept)) (map_eq_nil_or _ _ _ hen)
+    rw [← table_doc] at hparse
+    have hparse' := h.trans hparse
+    have heval : ∀ dot, evalAst dot (.node tildeP [partsTree (wo cfg.includeIntercept p) (tail.map (wo cfg.includeIntercept))])
+        = denSide denSum (wo cfg.includeIntercept p) (tail.map (wo cfg.includeIntercept)) := by
+      intro dot
+      rw [evalAst_node, evalArgs_cons, eval_side, evalArgs_nil]
+      cases denSide denSum (wo cfg.includeIntercept p) (tail.map (wo cfg.includeIntercept)) <;> rfl
+    rw [parseToks_of cfg env _ _ _ hparse' heval,
+      wrapCheck_root _ (fun v hv => denSide_shape _ _ _ v hv)]
+    simp only [denoteFormula, denStruct]
+    rw [denSide_map, denSide_congr _ _ (denSum_wo cfg.includeIntercept)]
+  | two l ltail p tail =>
+    obtain ⟨htwo, hmp⟩ := hen
+    have hmp' : (ltail = [] ∧ tail.map (wo cfg.includeIntercept) = []) ∨ cfg.multipart = true := by
+      rcases hmp with ⟨h1, h2⟩ | h
+      · exact Or.inl ⟨h1, by rw [h2]; rfl⟩
+      · exact Or.inr h
+    have hparse := twosided_parses_doc cfg.multipart cfg.multistage l ltail
+      (wo cfg.includeIntercept p) (tail.map (wo cfg.includeIntercept)) hmp'
+    have htab : cfg.table = documentedTable true cfg.multipart cfg.multistage := by rw [table_doc, htwo]
+    rw [← htab] at hparse
+    have hparse' := h.trans hparse
+    have heval : ∀ dot, evalAst dot (.node tilde [partsTree l ltail,
+          partsTree (wo cfg.includeIntercept p) (tail.map (wo cfg.includeIntercept))])
+        = (match denSide denSum l ltail with
+           | .error e => .error e
+           | .ok vl => match denSide denSum (wo cfg.includeIntercept p) (tail.map (wo cfg.includeIntercept)) with
+             | .error e => .error e
+             | .ok vr => .ok (.struct [("lhs", vl), ("rhs", vr)])) := by
+      intro dot
+      rw [evalAst_node, evalArgs_cons, eval_side, evalArgs_cons, eval_side, evalArgs_nil]
+      cases denSide denSum l ltail with
+      | error e => rfl
+      | ok vl =>
+        cases denSide denSum (wo cfg.includeIntercept p) (tail.map (wo cfg.includeIntercept)) with
+        | error e => rfl
+        | ok vr =>
+          show Except.ok (mkStruct [("lhs", vl), ("rhs", vr)] none) = _
+          rw [mkStruct_lhs_rhs]
+    rw [parseToks_of cfg env _ _ _ hparse' heval]
+    simp only [denoteFormula, denStruct]
+    rw [denSide_map, denSide_congr _ _ (denSum_wo cfg.includeIntercept)]
+    cases denSide denSum l ltail with
+    | error e => rfl
+    | ok vl =>
+      cases denSide (denRhs cfg.includeIntercept) p tail with
+      | error e => rfl
+      | ok vr => simp only [wrapCheck, Except.map, wrapRoot]
+
 end FormulaicVerif.Proofs.C01Denote
